@@ -57,6 +57,9 @@ func evCalls(evs evSet, extra ...func(in ssa.Instruction) string) func(in ssa.In
 				return n
 			}
 		}
+		if _, isGo := in.(*ssa.Go); isGo {
+			return ""
+		}
 		cc := callCommon(in)
 		if cc == nil {
 			return ""
